@@ -699,7 +699,13 @@ class BaseSpectrum:
             x = np.insert(x, x.size, w2)
             y = np.insert(y, y.size, 0.0 * y.unit)
 
-        return self.__class__(Empirical1D, points=x, lookup_table=y)
+        # A table that was asked to keep its negative values must not
+        # have them zeroed by tapering.
+        kwargs = {}
+        if isinstance(self._model, Empirical1D):
+            kwargs['keep_neg'] = self._model._keep_neg
+
+        return self.__class__(Empirical1D, points=x, lookup_table=y, **kwargs)
 
     def _get_arrays(self, wavelengths, **kwargs):
         """Get sampled spectrum or bandpass in user units."""
